@@ -34,7 +34,51 @@ impl Sym {
         })
     }
     fn bin(self, op: B, o: Sym) -> Sym {
-        with_st(|st| Sym(st.arena.bin(op, self.0, o.0)))
+        let r = with_st(|st| Sym(st.arena.bin(op, self.0, o.0)));
+        if matches!(op, B::Add | B::Sub | B::Mul | B::Div) && with_st(|st| st.rounding) {
+            return self.rounded(op, o, r);
+        }
+        r
+    }
+    /// standard model of floating-point arithmetic: fl(x op y) = (x op y) + e, |e| <= 2^-53 |x op y|, e a function
+    /// of the exact result (operations that are exact in binary floating point are left alone)
+    fn rounded(self, op: B, o: Sym, r: Sym) -> Sym {
+        if r.as_const().is_some() || r.0 == self.0 || r.0 == o.0 {
+            return r;
+        }
+        let pow2 = |s: Sym| s.as_const().map_or(false, |c| c != 0.0 && c.is_finite() && (c.abs().log2().fract() == 0.0));
+        match op {
+            B::Mul if pow2(self) || pow2(o) => return r,
+            B::Div if pow2(o) => return r,
+            _ => {}
+        }
+        let (c, out) = with_st(|st| {
+            st.rounded_ops += 1;
+            const U0: f64 = 1.1102230246251565e-16;
+            // sign of the exact result from a coarse interval enclosure: a definite sign makes the bound two linear
+            // inequalities instead of a case split
+            let (lo, hi) = st.arena.interval(r.0);
+            let m = lo.abs().max(hi.abs());
+            let (elo, ehi) = if m.is_finite() { (Some(-m * U0 * 1.0000001), Some(m * U0 * 1.0000001)) } else { (None, None) };
+            let e = st.arena.tape("rnd", &[r.0], elo, ehi);
+            let u = st.arena.konst(U0);
+            let ur = st.arena.bin(B::Mul, u, r.0);
+            let c = if lo >= 0.0 || hi <= 0.0 {
+                let nur = st.arena.un(U::Neg, ur);
+                let (a, b) = if lo >= 0.0 { (nur, ur) } else { (ur, nur) };
+                let c1 = st.arena.le(a, e);
+                let c2 = st.arena.le(e, b);
+                st.arena.and(c1, c2)
+            } else {
+                let ae = st.arena.un(U::Abs, e);
+                let ar = st.arena.un(U::Abs, r.0);
+                let bound = st.arena.bin(B::Mul, u, ar);
+                st.arena.le(ae, bound)
+            };
+            (c, Sym(st.arena.bin(B::Add, r.0, e)))
+        });
+        eng::assume_unchecked(c);
+        out
     }
     pub fn c_lt(self, o: Sym) -> u32 {
         with_st(|st| st.arena.lt(self.0, o.0))
@@ -571,6 +615,8 @@ pub trait Sc: RealField + FromPrimitive + Copy + 'static {
     fn control(name: &str);
     /// symbolic run only: do not fork on "denominator == 0" (assume denominators non-zero unless forced)
     fn no_div_zero_forks();
+    /// symbolic run only: switch the rounding model of +,-,*,/ on or off (native runs round by themselves)
+    fn rounding(on: bool);
     /// does the current path condition entail `c`?  (a solver query that is not recorded as an
     /// obligation; used by harnesses to look values up in call logs.  Native: evaluates `c`.)
     fn holds(c: Self::Bl) -> bool;
@@ -671,6 +717,9 @@ impl Sc for Sym {
     fn no_div_zero_forks() {
         eng::set_fork_div_zero(false)
     }
+    fn rounding(on: bool) {
+        eng::set_rounding(on)
+    }
     fn holds(c: u32) -> bool {
         eng::entails(c)
     }
@@ -758,6 +807,7 @@ impl Sc for f64 {
     fn reach(_name: &str) {}
     fn control(_name: &str) {}
     fn no_div_zero_forks() {}
+    fn rounding(_on: bool) {}
     fn holds(c: bool) -> bool {
         c
     }
